@@ -2,6 +2,7 @@
 implementation's arrays after every operation, brute-force oracle."""
 import itertools
 
+import math
 import numpy as np
 
 import core
@@ -105,8 +106,13 @@ def gen_ins(rng, stream, ext_counter, nmax=7, modes=MODES):
     if has_ext:
         ext = list(range(ext_counter[0], ext_counter[0] + len(boxes)))
         ext_counter[0] += len(boxes)
-    return {"op": "ins", "mode": mode, "boxes": boxes, "ext": ext, "shuffle_seed": rng.randrange(2 ** 31),
-            "tie": tie, "single": (len(boxes) == 1 and mode == "none" and rng.random() < 0.5)}
+    op = {"op": "ins", "mode": mode, "boxes": boxes, "ext": ext, "shuffle_seed": rng.randrange(2 ** 31),
+          "tie": tie, "single": (len(boxes) == 1 and mode == "none" and rng.random() < 0.5)}
+    if stream != "G" and rng.random() < 0.15:
+        # the same box values handed over in a narrower array type (voxel/grid data: int64, float32); the values are
+        # exactly representable, so the tree must behave as for float64 input (storage is float64)
+        op["dtype"] = rng.choice(["int64", "float32"])
+    return op
 
 
 def gen_history(rng, stream):
@@ -138,6 +144,25 @@ def gen_history(rng, stream):
             c2 = [200000]
             other = [gen_ins(rng, stream, c2, nmax=5) for _ in range(k)]
             ops.append({"op": "qt", "other": other})
+    if rng.random() < 0.12:
+        # narrow-first history: the FIRST non-empty batch arrives as an int64 / float32 array of integer-valued boxes
+        # (voxel or grid data); later batches carry values that the narrow type cannot hold (halves, thirds). The tree
+        # stores float64 and must answer for the values supplied.
+        narrow = rng.choice(["int64", "float32"])
+        first = True
+        for op in ops:
+            if op["op"] != "ins" or not op["boxes"]:
+                continue
+            if first:
+                op["boxes"] = [[[float(math.floor(lo)), float(math.ceil(hi))] for lo, hi in b] for b in op["boxes"]]
+                op["dtype"] = narrow
+                if op["mode"] == "sort":
+                    keys = [b[0][0] for b in op["boxes"]]
+                    op["tie"] = len(set(keys)) < len(keys)
+                first = False
+            else:
+                op.pop("dtype", None)
+                op["boxes"] = [[[lo + 1.0 / 3.0, hi + 1.0 / 3.0 + 1e-9] for lo, hi in b] for b in op["boxes"]]
     return ops
 
 
@@ -151,6 +176,12 @@ def shuffle_perm(n, seed):
 
 def impl_insert(tree, op):
     boxes = np.array(op["boxes"], dtype=float).reshape(-1, 3, 2)
+    if op.get("dtype"):
+        cast = boxes.astype(op["dtype"])
+        if not np.array_equal(cast.astype(float), boxes):
+            cast = boxes.astype("float32")
+        if np.array_equal(cast.astype(float), boxes):
+            boxes = cast
     if op["mode"] == "shuffle":
         np.random.seed(op["shuffle_seed"])
     if op.get("single"):
